@@ -4,7 +4,7 @@
    FIN/RSV/opcode/mask combination, every length form, every payload - in every reassembly state, both roles,
    compression negotiated or not.  The UTF-8 validator, the inflater and the LZ77 window are parameters. *)
 From Gws Require Import Lib.Base Spec.MaskSpec Spec.Rfc6455 Spec.Rfc6455Recv Model.Header Model.CloseCode Model.Reader
-  Proofs.FrameProofs Proofs.ReaderProofs Proofs.ReaderRefine Proofs.FragmentProofs Gen.Funcs Proofs.GenFuncsProofs.
+  Proofs.FrameProofs Proofs.ReaderProofs Proofs.ReaderRefine Proofs.FragmentProofs Gen.Funcs Proofs.GenFuncsProofs Model.Pool.
 Local Open Scope N_scope.
 
 Section C03.
@@ -78,9 +78,23 @@ Theorem C03_header_checks_from_source : forall c st bs h rest,
   /\ (g = 0 -> is_data_op (get_opcode (h_b0 h)) = true
                /\ ((h_len h <? 0) || (h_len h >? r_limit c))%Z = false
                /\ (get_rsv2 (h_b0 h) || get_rsv3 (h_b0 h) || (get_rsv1 (h_b0 h) && negb (r_pmd c))) = false
-               /\ ((r_server c && negb (get_mask (h_b1 h))) || (negb (r_server c) && get_mask (h_b1 h))) = false)%Z
+               /\ ((r_server c && negb (get_mask (h_b1 h))) || (negb (r_server c) && get_mask (h_b1 h))) = false
+               /\ (r_pmd c && get_rsv1 (h_b0 h) && (negb (is_data_op (get_opcode (h_b0 h))) || (get_opcode (h_b0 h) =? 0)%N)) = false)%Z
   /\ (g = 1009 \/ g = 1002 \/ g = -1 \/ g = 0)%Z.
 Proof. exact (read_message_guards_from_source utf8_valid inflate W wdict wwrite). Qed.
+
+(* ... and the rest of readMessage: once the payload has been read and unmasked, the model goes through the conditions of
+   the source's remaining `if` statements (continuation without a message / new message inside one, final frame of an
+   unfragmented message, first fragment, fragment limit, non-final fragment), regenerated from reader.go as
+   gf_gws_Conn_readMessage_cond9..14, in the source's order *)
+Theorem C03_reassembly_from_source : forall c st bs h rest raw rest' p,
+  parse_header bs = POk h rest -> gen_guards c h = 0%Z ->
+  (Pool.pool_cap (h_len h + 9) <? h_len h)%Z = false ->
+  read_n (Z.to_nat (h_len h)) rest = inl (Some (raw, rest')) ->
+  unmask (get_mask (h_b1 h)) (h_key h) raw = Some p ->
+  read_message utf8_valid inflate W wdict wwrite c st bs
+  = reassemble_src utf8_valid inflate W wdict wwrite c st (get_opcode (h_b0 h)) (get_fin (h_b0 h)) (r_pmd c && get_rsv1 (h_b0 h)) p rest'.
+Proof. exact (read_message_tail_from_source utf8_valid inflate W wdict wwrite). Qed.
 
 Theorem C03_control_checks_from_source : forall c st h rest,
   let g := gf_gws_Conn_readControl (get_fin (h_b0 h)) (Z.of_N (get_lencode (h_b1 h))) in
@@ -127,3 +141,4 @@ Print Assumptions C03_fragmented_message.
 Print Assumptions C03_header_accessors_from_source.
 Print Assumptions C03_header_checks_from_source.
 Print Assumptions C03_control_checks_from_source.
+Print Assumptions C03_reassembly_from_source.
